@@ -2,10 +2,10 @@ SPECIFICATION Spec
 CONSTANTS
   Names = {"a", "b"}
   BaseLens = {0, 1}
-  Align = {20, 48}
-  EndAlign = {20, 48}
+  Align = {20}
+  EndAlign = {}
   MaxOps = 7
-  MaxFiles = 3
+  MaxFiles = 2
   Srcs = {"exact"}
   Calls = {"start", "append", "end", "add", "finalize"}
   OnlyValid = TRUE
